@@ -463,13 +463,23 @@ func realTimeThrottle(prop string, ops, total int, interval time.Duration, fk bo
 	} else {
 		out = pipe.Throttling(ctx, in, ops, interval)
 	}
+	// every delivery lies between two readings of the clock: bef (taken before the receive was attempted) and at
+	// (taken after it returned). A consumer that is descheduled between the receive and the second reading stamps
+	// an old delivery late; only the pair brackets the true instant.
 	at := make([]time.Duration, 0, total)
+	bef := make([]time.Duration, 0, total)
 	ok := soakGuard("Throttling/real-clock", func() {
-		for v := range out {
+		for {
+			b := time.Since(start)
+			v, open := <-out
+			if !open {
+				return
+			}
 			if v != len(at) {
 				rec.Violate(prop+"/Throttling/real-clock/order", fmt.Sprintf("element %d delivered at position %d", v, len(at)), c)
 				return
 			}
+			bef = append(bef, b)
 			at = append(at, time.Since(start))
 		}
 	})
@@ -482,11 +492,13 @@ func realTimeThrottle(prop string, ops, total int, interval time.Duration, fk bo
 			rec.Violate(prop+"/Throttling/real-clock/early", fmt.Sprintf("real clock, ops=%d interval=%v: element %d delivered at %v, earlier than floor(i/ops)*interval = %v (all %d took %v)", ops, interval, i, ti, min, len(at), at[len(at)-1]), c)
 			break
 		}
-		for at[lo] <= ti-interval {
+		// deliveries lo..i certainly all happened inside (ti-interval, ti]: each one after its bef reading, which is
+		// later than ti-interval, and before its at reading, which is not later than ti
+		for bef[lo] <= ti-interval {
 			lo++
 		}
 		if n := i - lo + 1; n > 2*ops+1 {
-			rec.Violate(prop+"/Throttling/real-clock/window", fmt.Sprintf("real clock, ops=%d interval=%v: %d deliveries within one interval ending at %v, bound is %d", ops, interval, n, ti, 2*ops+1), c)
+			rec.Violate(prop+"/Throttling/real-clock/window", fmt.Sprintf("real clock, ops=%d interval=%v: %d deliveries certainly within one interval ending at %v (each received after %v), bound is %d", ops, interval, n, ti, bef[lo], 2*ops+1), c)
 			break
 		}
 	}
